@@ -19,6 +19,7 @@ from vlib import tlc, check, tlaval
 from bind import c13_drivers as D
 from sim import chip_pn53x as P
 from sim import chip_crc as CRC
+from bind import c14_transport as TR
 
 import nfc.clf
 import nfc.clf.device
@@ -476,6 +477,10 @@ def run(tier, seed):
     ck.cover(mc_states=r.distinct, mc_transitions=r.generated, predicted_discrepancies=len(preds),
              witnesses_reached=sorted(hit))
 
+    # 1b. the byte-stream layer below the frames: the real transport.USB / transport.TTY on fake usb1 / serial backends
+    #     (spec/Transport.tla exhaustively, recorded executions against spec/Trace_Transport.tla)
+    TR.stage(ck, tier, seed)
+
     # 2. recorded cases
     batches = []
     for drv, fam in CMD_DRIVERS:
@@ -591,7 +596,8 @@ def run(tier, seed):
     ck.sample(dict(batch=batches[0]["id"], first=batches[0]["ev"][1]))
     rb = [b for b in batches if b["kind"] == "rsp"][0]
     ck.sample(dict(batch=rb["id"], first=rb["ev"][:2]))
-    ck.assume("frame-level simulated transports: the USB/TTY glue of nfc.clf.transport is not executed",
+    ck.assume("frames: frame-level simulated transports; byte streams: the real nfc.clf.transport.USB / TTY on simulated usb1 / "
+              "pyserial backends (bulk transfers end with a short packet; serial bytes arrive in arbitrary chunks)",
               "responses are validated for the pn53x.Chipset.command and acr122.Chipset.command code paths; "
               "RC-S380 responses are outside the statement (rcs380.Frame verifies no checksum)",
               "the TLA+ modules HostFrame/Crc14443 are the oracle (written from the chip manuals / ISO 14443-3 Annex B)")
@@ -600,6 +606,8 @@ def run(tier, seed):
 
 def replay(rep, args):
     r = rep["replay"]
+    if r["kind"] == "transport":
+        return TR.replay(r, args)
     rnd = random.Random(1)
     if r["kind"] == "rsp":
         f = r["frame"]
